@@ -986,6 +986,7 @@ void dataset_case(vt::Rng& rng, int64_t icase)
 
     // shuffled(feature, samples) of a feature that is not shuffled: as many indices as given, all valid
     std::vector<char> is_shuffled(static_cast<size_t>(dataset.features()), 0);
+    std::vector<char> was_shuffled(static_cast<size_t>(dataset.features()), 0);
     const auto not_shuffled = [&]()
     {
         std::vector<tensor_size_t> candidates;
@@ -1000,11 +1001,23 @@ void dataset_case(vt::Rng& rng, int64_t icase)
         {
             return;
         }
-        const auto f       = rng.pick(candidates);
-        const auto samples = random_samples(rng, n, true);
-        const auto out     = dataset.shuffled(f, samples);
-        vt::put(vt::J("Unshuffled").i("f", f).a("samples", std::vector<int64_t>(samples.begin(), samples.end())).a(
-            "out", std::vector<int64_t>(out.begin(), out.end())));
+        // one feature at random and every feature that WAS shuffled earlier in this history (a shuffle cancelled by drop / undrop /
+        // unshuffle must not be reported any more: the views are those of the stored order again)
+        std::vector<tensor_size_t> probes{rng.pick(candidates)};
+        for (const auto k : candidates)
+        {
+            if (was_shuffled[static_cast<size_t>(k)] != 0 && k != probes[0])
+            {
+                probes.push_back(k);
+            }
+        }
+        for (const auto f : probes)
+        {
+            const auto samples = random_samples(rng, n, true);
+            const auto out     = dataset.shuffled(f, samples);
+            vt::put(vt::J("Unshuffled").i("f", f).a("samples", std::vector<int64_t>(samples.begin(), samples.end())).a(
+                "out", std::vector<int64_t>(out.begin(), out.end())));
+        }
     };
 
     record_views();
@@ -1024,6 +1037,7 @@ void dataset_case(vt::Rng& rng, int64_t icase)
         {
             dataset.shuffle(f);
             is_shuffled[static_cast<size_t>(f)] = 1;
+            was_shuffled[static_cast<size_t>(f)] = 1;
             const auto perm = dataset.shuffled(f, arange(0, n));
             vt::put(vt::J("Op").s("op", "shuffle").i("f", f).a("perm", std::vector<int64_t>(perm.begin(), perm.end())));
             const auto samples = random_samples(rng, n, true);
@@ -1044,7 +1058,7 @@ void dataset_case(vt::Rng& rng, int64_t icase)
             std::fill(is_shuffled.begin(), is_shuffled.end(), 0);
         }
         record_views();
-        if (rng.coin(1, 2))
+        if (rng.coin(1, 2) || op >= 8 || op <= 3)
         {
             not_shuffled();
         }
